@@ -13,7 +13,7 @@ def run(ctx):
                 'distinct = distinct (kind, field, form, entry point, code form, outcome, bound kinds) tuples executed')
     ctx.assumptions += ['projection (harness/proj.py) is trusted; oracle = ast.parse of the whole source',
                         'domain: pars not False; request valid (pure-AST surgery unparses and re-parses); result '
-                        'respects grammar minimum lengths unless norm=True; f-string internals and raw mode excluded']
+                        'respects grammar minimum lengths unless norm=True; f-string internals are edited only through fv_replace events (format specs excluded); raw mode excluded (C10)']
     ctx.model('ContainersMC', 'ContainersMC', required=('DoPutSlice', 'DoPutOne', 'DoDelOne'))
     editcheck.run_sweep(ctx, per_template=20 if ctx.quick else 0, n_arg=150 if ctx.quick else 0, props=PROPS)
     # (F) systematic deletions (single-valued fields, tails / ends of every list field) of every node x field of the corpus
